@@ -140,6 +140,11 @@ CONTEXTS = {
     "argument-of-a-partial-instance-of-one": (lambda d, e: X.nta(d, [T(params="const int p, const int p2")],
                                                                     "Q(const int c, const int c2) = T(c, c2); R(const int r) = Q(r, 1); P = R(%s); system P;" % e), True),
     "argument-inside-a-partial-instance": (lambda d, e: X.nta(d, [T(params="const int p, const int p2")], "Q(const int c) = T(c, %s); P = Q(1); system P;" % e), True),
+    # a template that the system line does not name is checked like any other
+    "guard-in-unused-template": (lambda d, e: X.nta(d, [T(), X.template("U", locations=[X.location("id7", "M0"), X.location("id8", "M1")], init="id7",
+                                                                        transitions=[X.transition("id7", "id8", guard="%s == 1" % e)])], SYS), False),
+    "invariant-in-unused-template": (lambda d, e: X.nta(d, [X.template("U", locations=[X.location("id7", "M0", inv="%s >= 0" % e)], init="id7"), T()], SYS), False),
+    "local-initialiser-in-unused-template": (lambda d, e: X.nta(d, [T(), X.template("U", decl="int q = %s;" % e, locations=[X.location("id7", "M0")], init="id7")], SYS), True),
     # initialisers and sizes of function-local declarations, also in blocks that consist of declarations only (no statement follows)
     "function-local-initialiser": (lambda d, e: X.nta(d + "void lf() { int u = %s; }" % e, [T(assign="lf()")], SYS), False),
     "function-local-initialiser-in-declaration-only-block": (lambda d, e: X.nta(d + "void lf() { { int u0 = k; int u = %s; } }" % e, [T(assign="lf()")], SYS), False),
